@@ -14,6 +14,7 @@ ASSUMPTIONS = [
     "the --follow loop is modelled by LogFollow (one target, arbitrary interleaving with its builder); every follower session of every live build is replayed through the acceptor LogFollow.Obs (hooks log.enter/open/check/stop, job.logfile, lock events): reads and appends are not traced, the conditions of the completeness theorem are",
     "lines are compared modulo trailing whitespace (clean_line strips it by design)",
     "a stderr line that parses as a record is consumed as a record (known finding inbandRecordsInStderr); generated script output avoids the @@REDO: prefix except in the dedicated scenario",
+    "several processes append to one log (the script, what it runs in the background, every redo-ifchange it starts): the models treat a record and a script line as atomic appends; checked at the syscall level (split_records: every record reaches the log / the viewer's pipe in one write(2)); scripts of the concurrent-writers scenario write whole lines with one write each, the order between concurrent writers is not checked",
 ]
 
 KINDS = ["do", "done", "unchanged", "waiting", "locked", "unlocked", "check", "warning", "error", "x", ""]
@@ -842,9 +843,13 @@ def run(ctx):
         concurrent_reader_scenario(ctx, viol)
     if not viol:
         two_spellings_scenario(ctx, viol)
+    s5 = {}
+    if not viol:
+        # own generator: the scenarios above keep their input streams
+        s5 = concurrent_writers_level(ctx, random.Random(ctx["seed"] * 7919 + 18), viol)
     return dict(evaluations=s1["requests"] + s2.get("replays", 0) + s3.get("builds", 0),
                 distinct_nontrivial=s1["parse_accepted"] + s2.get("replays", 0) - s2.get("errors", 0) + s3.get("builds", 0),
-                rule="record-shaped and malformed lines from a seeded grammar (non-trivial = accepted by the parser); synthetic 6-target log forests in two directories (t0 t1 t2 sub/t3 sub/t4 sub/t5; records do/unchanged/waiting/done/other whose names are random spellings relative to the log's own directory — t1, ./t1, sub/../t1, ../sub/t4, sub//t3, sub/./t3 …; look-alikes, missing files, cycles; roots through random spellings too) replayed by the real redo-log -r with and without -u (non-trivial = replay without error); live builds of random graphs at several -j with numbered/partial/70 kB/trailing-whitespace lines",
+                rule="record-shaped and malformed lines from a seeded grammar (non-trivial = accepted by the parser); synthetic 6-target log forests in two directories (t0 t1 t2 sub/t3 sub/t4 sub/t5; records do/unchanged/waiting/done/other whose names are random spellings relative to the log's own directory — t1, ./t1, sub/../t1, ../sub/t4, sub//t3, sub/./t3 …; look-alikes, missing files, cycles; roots through random spellings too) replayed by the real redo-log -r with and without -u (non-trivial = replay without error); live builds of random graphs at several -j with numbered/partial/70 kB/trailing-whitespace lines; live builds of trees whose inner targets keep 1-3 background writers (and sometimes a second redo-ifchange) on their own log while redo-ifchange builds ~20 children, free-running and once under strace with every write(2) slowed down (lines per writer exactly once and in order under the target, stored records well-formed, every record written by ONE write call)",
                 samples=smp1 + smp2 + smp3, disagreements_checked=s1["requests"] + s2.get("replays", 0),
                 traces_validated_against_impl=s2.get("replays", 0), known_hit=known_hit,
-                distribution=dict(record=s1, replay=s2, live=s3, follow_oob_scenario=s4))
+                distribution=dict(record=s1, replay=s2, live=s3, follow_oob_scenario=s4, concurrent_writers=s5))
